@@ -20,6 +20,7 @@ def configs(tier):
     if tier == 'quick':
         add(spec('localp', 'localp', 2, 1, 2, order=1), 0, 0); add(spec('localp', 'semi-localp', 2, 2, 2, order=2), 1, 0); add(spec('localp', 'localp-zero', 2, 1, 2, order=3), 4, 0)
         add(spec('localp', 'localp-boundary', 2, 1, 2, order=1), 2, 0); add(spec('localp', 'localp', 2, 1, 2, order=2), 3, 0); add(spec('localp', 'localp', 2, 1, 3, order=0), 0, 0)
+        add(spec('localp', 'localp', 3, 1, 2, order=1), 8, 0); add(spec('localp', 'localp-zero', 3, 1, 2, order=2), 8, 0); add(spec('localp', 'localp', 2, 1, 3, order=1), 8, 0)   # direct parent missing, ancestor present
         add(spec('localp', 'semi-localp', 3, 1, 3, order=2), 7, 0); add(spec('localp', 'localp-boundary', 3, 1, 3, order=1), 7, 0); add(spec('localp', 'localp', 3, 1, 2, order=0), 7, 0)   # regular-parent-closed, step-parent-open subsets in 3-D
         add(spec('global', 'clenshaw-curtis', 2, 1, 2), 0, 0); add(spec('global', 'leja', 2, 2, 2), 1, 0); add(spec('global', 'gauss-legendre', 2, 1, 2), 0, 0); add(spec('global', 'clenshaw-curtis', 2, 1, 2, transform=1), 3, 0)
         add(spec('global', 'clenshaw-curtis', 2, 2, 2, transform=1), 0, 0); add(spec('sequence', 'rleja', 2, 3, 2, transform=1), 0, 0); add(spec('localp', 'localp', 2, 2, 2, order=1, transform=1), 0, 0)   # several outputs x several dimensions x a non-cubic box: the layout of the Jacobian matters
@@ -33,6 +34,9 @@ def configs(tier):
             for rule in LOCAL_RULES: add(spec('localp', rule, 2, 1, 1, order=1), 0, 2, bs); add(spec('localp', rule, 1, 2, 2, order=2), 1, 2, bs)
             add(spec('localp', 'localp', 2, 1, 1, order=0), 0, 2, bs); add(spec('wavelet', 'wavelet', 1, 1, 2, order=1), 0, 2, bs); add(spec('wavelet', 'wavelet', 2, 1, 1, order=3), 0, 2, bs); add(spec('global', 'clenshaw-curtis', 2, 1, 1), 0, 2, bs); add(spec('fourier', 'fourier', 1, 1, 1), 0, 2, bs)
         for rule in LOCAL_RULES:
+            for order in (0, 1, 2):
+                if order == 0 and rule != 'localp': continue
+                add(spec('localp', rule, 3, 1, 2, order=order), 8, 0); add(spec('localp', rule, 3, 2, 3, order=order), 8, 0); add(spec('localp', rule, 2, 1, 3, order=order), 8, 0)
             for order in (-1, 0, 1, 2, 3, 4):
                 if order == 0 and rule != 'localp': continue
                 for h in range(5): add(spec('localp', rule, 2, 1, 2, order=order), h, 0)
